@@ -328,6 +328,12 @@ def reference_peptides(bb: Backbone, lim: dg.Limits, flags: Flags):
 def evaluate(bb: Backbone, lim: dg.Limits, flags: Flags, mass_margin=1e-3):
     """Returns dict(must=set, may=set, ref=set, n_hap=int, n_must_hap=int)."""
     refpep = reference_peptides(bb, lim, flags)
+    # a Sec codon overlapped by the raw span of ANY supplied record (even one outside the haplotype) is
+    # read ambiguously by design: nothing that depends on its reading is demanded
+    amb = [c for c in bb.sec if any(e.start < c + 3 and c < e.end for e in bb.edits)]
+    if amb:
+        bb.sec = [c for c in bb.sec if c not in amb]
+        bb.sec_may = list(bb.sec_may) + amb
     must, may = set(), set()
     n_h = n_mh = 0
     # the base backbone itself (fusion / circRNA junction peptides) is haplotype ()
